@@ -39,6 +39,9 @@ FIXES = [
     ('11-C09-maskpoints-integer-indices.patch', 'C09', 'C09.INT-SINK'),
     ('12-C09-cholesky_band-localise-failure.patch', 'C09', 'C09.SHAPE-JOIN'),
     ('13-C10-iterfit-loop-until-converged.patch', 'C10', 'C10.LOOP'),
+    ('14-C08-everyn-positions-bounded.patch', 'C08', 'C08.EVERYN'),
+    ('15-C11-combine1fiber-without-ivar.patch', 'C11', 'C11.NONE-DEREF'),
+    ('16-C01-zero-row-table-with-array-column.patch', 'C01', 'C01.ZERO-ROW'),
 ]
 
 
